@@ -271,3 +271,17 @@ def invalid_probe(S, fmt, ch, rate, mode, rng, cfg=None):
             if mode != "r":
                 S.add("write 0 %s f 1 gen %s %d %d" % (T0, cls, rng.randint(1, 10 ** 6), par))
         S.add("close 0", "open 1 %s r 1 %d %d %d" % (rt, fmt if scen.major(fmt) == scen.RAW else 0, ch, rate), "read 1 %s f 60" % T0, "close 1")
+    if mode != "w":
+        # the same invalid read and write calls with the read position at the end of the data (reached by a read and by a seek) and on an empty file
+        for how in ("read", "seek", "empty"):
+            S.scn(fmt="0x%x" % fmt, ch=ch, T=T0, kind="invprobe_end", mode=mode, how=how, **(cfg or {}))
+            S.add("file 1 new", "open 0 %s w 1 %d %d %d" % (rt, fmt, ch, rate))
+            if how != "empty":
+                S.add("write 0 %s f 24 gen %s %d %d" % (T0, cls, rng.randint(1, 10 ** 6), par))
+            S.add("close 0", "open 0 %s %s 1 %d %d %d" % (rt, mode, fmt if scen.major(fmt) == scen.RAW else 0 if mode == "r" else fmt, ch, rate))
+            for T in "sifd":
+                ks = ["read 0 %s i -1" % T, "read 0 %s f -2" % T] + (["read 0 %s i %d" % (T, ch + 1), "read 0 %s i 1" % T] if ch > 1 else [])
+                for k in ks:
+                    S.add("read 0 %s f 30" % T0 if how == "read" else "seek 0 0 %d" % (2 if mode == "r" else 18))
+                    S.add(k, "errq 0", "read 0 %s f 2" % T0)
+            S.add("close 0")
